@@ -639,3 +639,12 @@ Proof.
     + subst ns. exact Hns.
     + intros r Hr. rewrite (Hrect r Hr). lia.
 Qed.
+
+(* the windows init_params accepts are exactly the multiples of 12 above the overlap *)
+Lemma params_status_spec W : params_status W = 0 <-> (W mod 12 = 0 /\ 576 < W).
+Proof.
+  unfold params_status, admissible, OVERLAP.
+  destruct (Z.eqb_spec (W mod 12) 0) as [E|E]; destruct (Z.ltb_spec 576 W) as [L|L]; cbn [andb];
+    split; intros H; try discriminate; try reflexivity; try (split; assumption); destruct H; try contradiction; lia.
+Qed.
+
